@@ -32,7 +32,7 @@ RULE = ('directed corpus (docstring examples, one message per rendering, D4/K12 
         '(per-rendering alphabet, length 1..40), surrounding class (rotating over 13) and mask per cell and round '
         '+ messages with 2..4 secrets + key-free messages (four alphabets that cannot spell a key, near-miss key '
         'spellings in every rendering). every message is non-trivial; distinct by (message, mask)')
-REQUIRED_CLAUSES = ['first-use-under-recursion-pressure', 'documented-keyword-call', 'b-no-leak (dash-leading secret)', 'a-exact-output', 'b-no-leak', 'c-idempotent', 'd-identity-without-key']
+REQUIRED_CLAUSES = ['concurrent-calls-answer-as-alone', 'first-use-under-recursion-pressure', 'documented-keyword-call', 'b-no-leak (dash-leading secret)', 'a-exact-output', 'b-no-leak', 'c-idempotent', 'd-identity-without-key']
 ASSUMPTIONS = [
     'expected output is composed from the generator components; the 35 keys are the list in the property '
     '(copied here, not imported from the code under test)',
@@ -48,6 +48,7 @@ ASSUMPTIONS = [
     'a quoted k="v" value that contains the other quote kind is observed (must not raise) but not asserted',
 ]
 INTERPRETER_FLAGS = [[], ['-O'], [], ['-bb']]
+CONCURRENT = lambda case: case.get('kind') != 'starved'          # pure function of its arguments; see vlib/concurrent.py
 SHARDS = {'quick': 4, 'thorough': 16}
 MIN_DISTINCT = {'quick': 20000, 'thorough': 1000000}
 
@@ -461,10 +462,16 @@ def surround(rng, klass):
     raise ValueError(klass)
 
 
+UNICODE_BLANKS = '\u00a0\u2003\u2028\u3000\u0085\u2009\u1680'
+
+
 def fit_after(cls, text):
-    """The text after a bare secret starts with whitespace or is empty."""
+    """The text after a bare secret starts with whitespace or is empty.  Whitespace is what str.isspace() and the regex
+    class \\s call whitespace, so one time in five the separating blank is a no-break space, an em space, a line
+    separator, an ideographic space or NEL instead of an ASCII one."""
     if cls == 'bare' and text and not text[0].isspace():
-        return ' ' + text
+        n = (len(text) * 7 + ord(text[0])) % (5 * len(UNICODE_BLANKS))
+        return (UNICODE_BLANKS[n] if n < len(UNICODE_BLANKS) else ' ') + text
     return text
 
 
@@ -689,6 +696,16 @@ def sweep_cases(rng):
 
 
 # ----------------------------------------------------------------------
+
+def HAMMER(ctx):
+    from oslo_utils import strutils
+    out = []
+    for m in ('password=s3cret next', "'token': 'abc' and more", '--os-password hunter2 --debug', '<adminPass>xyz</adminPass>', 'nothing to hide here',
+              'auth_token = "tok" user=bob', '{"secret_uuid": "u-1", "id": 7}', 'sslkey --key-file k.pem x', 'new_pass=a admin_pass=b sys_pswd=c'):
+        out.append(('mask_password(%r)' % m, lambda t=m: strutils.mask_password(t)))
+        out.append(('mask_password(%r, "###")' % m, lambda t=m: strutils.mask_password(t, secret='###')))
+    return out
+
 def run(ctx):
     from oslo_utils import strutils
     block = 0
